@@ -241,8 +241,9 @@ pub fn host_defer<D: GD + HasHost>(data: &mut D, op: Instruction, left: (Garnish
     if !data.host().recording {
         return Ok(false);
     }
-    let l = read_val(data, left.1);
-    let r_ = read_val(data, right.1);
+    // unary operations pass `(Unit, 0)` as their right operand: address 0 is a placeholder, not a value
+    let l = if left.0 == GarnishDataType::Unit { Val::Unit } else { read_val(data, left.1) };
+    let r_ = if right.0 == GarnishDataType::Unit { Val::Unit } else { read_val(data, right.1) };
     let answer = {
         let h = data.host_mut();
         let k = h.calls;
